@@ -8,8 +8,8 @@ THEOREMS = [
     "C12_join_branches_disjoint", "C12_schedule_independent", "C12_verify_binding", "C12_verify_binding_ex",
     "C12_other_leaf_collision", "C12_altered_sibling_collision", "C12_altered_cap_rejected",
     "C12_verify_out_of_range_panics", "C12_hash_or_noop_injective_same_width", "C12_hash_or_noop_pads",
-    "C12_batch_prove_verify",
-    "C12_example_tree", "C12_example_batch", "C12_example_binding_hypotheses", "C12_example_poseidon_root",
+    "C12_decompress_compress", "C12_batch_prove_verify",
+    "C12_example_tree", "C12_example_compression", "C12_example_batch", "C12_example_binding_hypotheses", "C12_example_poseidon_root",
 ]
 
 def oracle_scan(casefile, limit=20):
@@ -73,6 +73,21 @@ def in_coq_subset(c, casefile, per_op=3, max_args=120):
                 c.broken.append("in-Coq model disagrees with the implementation at line %d (%s)" % (lineno, op))
     return {"cases": len(picked), "mismatches": bad}
 
+def model_casefile(c, cli, casefile):
+    """The guide's convention is None = panic; some versions of extract/main.ml print a model None as
+    `fail`. Probe the driver with one known-panic case and, if needed, hand it a copy of the case
+    file with `= panic` spelled the way the driver prints None."""
+    probe = os.path.join(c.work, "probe.txt")
+    open(probe, "w").write("cap 1 0 3 1 1 2 3 = panic\n")
+    rc, out, _ = run("%s c12 %s" % (cli, probe), cwd=c.work, timeout=60)
+    if "TOTAL 1 MISMATCHES 0" in out:
+        return casefile
+    alt = os.path.join(c.work, "cases_model.txt")
+    with open(casefile) as f, open(alt, "w") as g:
+        for line in f:
+            g.write(line[:-len("= panic\n")] + "= fail\n" if line.endswith("= panic\n") else line)
+    return alt
+
 def main():
     a = std_args().parse_args()
     c = Check("C12", a.tier, a.seed)
@@ -109,7 +124,7 @@ def main():
         if ok_mk:
             cli = c.build_model_cli()
             if cli:
-                counts, mism, total = c.run_model(cli, "c12", casefile)
+                counts, mism, total = c.run_model(cli, "c12", model_casefile(c, cli, casefile))
                 if mism:
                     c.broken.append("model/implementation correspondence: %d disagreements, first: %s"
                                     % (total[1], mism[0][:400]))
@@ -145,7 +160,8 @@ def main():
         "theorems are about the model; the model is tied to the Rust code by correspondence on observable results "
         "(cap, every prove(i), every verdict), not on the internal digests array",
         "KeccakHash<25> is not run (byte-oriented; only the HashOut-shaped hashers are modelled)",
-        "path compression: model + correspondence only (decompress_compress is not proved)",
+        "decompress_compress is proved for proofs that are openings of one tree (any index multiset); what the two "
+        "functions do on inconsistent inputs is covered by correspondence only",
         "data-race freedom of the MaybeUninit writes under rayon is not modelled (index-set disjointness is proved)"])
 
 def replay(c, path):
